@@ -63,9 +63,14 @@ theorem python_vars (ops : Ops ν) (L : Layers ν) (f : PFactor) (c : PyCode) (h
     (r : ν × List Var) (h : evalFactor ops L f = .ok r) :
     r.2 = exprVariables c (evalEnv L c.aliases) := by
   rw [evalFactor_python ops L f c hk] at h
-  cases he : eval ops (resolve L (evalEnv L c.aliases)) c.ast with
-  | error e => rw [he] at h; cases h
-  | ok v => rw [he] at h; simp only [Except.ok.injEq] at h; subst h; rfl
+  cases hres : reservedHit (evalEnv L c.aliases) with
+  | true => rw [hres] at h; cases h
+  | false =>
+    rw [hres] at h
+    simp only [Bool.false_eq_true, if_false] at h
+    cases he : eval ops (resolve L (evalEnv L c.aliases)) c.ast with
+    | error e => rw [he] at h; cases h
+    | ok v => rw [he] at h; simp only [Except.ok.injEq] at h; subst h; rfl
 
 /-- a reported name that is not a dotted chain is a key the formula reads (after materialisation) -/
 theorem factor_var_read (ops : Ops ν) (L : Layers ν) (fs : List PFactor) (f : PFactor) (hf : f ∈ fs)
